@@ -1,6 +1,168 @@
-(* placeholder, replaced below *)
+(* C17 — model of the exclusive-device bookkeeping of pkg/scheduling/dynamicresources/allocationtracker.go
+   (Commit, ReleaseInstanceTypes, IsAllocated) for allocations that carry no shared counters and no consumable
+   capacity. The allocator's search that proposes allocations is not modelled. *)
 From KV Require Import C17.Model.
-Definition dev := string.
-Definition dop := string.
-Definition dobs := string.
-Definition checkT (pre : list dev) (ops : list dop) (obs : list dobs) : bool * bool := (true, true).
+Open Scope string_scope.
+Open Scope Z_scope.
+
+Record dev := mkDev { d_name : string; d_template : bool }.
+Definition ncid := string.
+Definition ity := string.
+
+Record tracker := mkT {
+  t_pre : list string;                               (* PreallocatedDevices *)
+  t_meta : string -> option (ncid * list ity);       (* InflightClusterAllocations: device -> (NodeClaim, instance types) *)
+  t_bync : ncid -> ity -> list string;               (* InflightClusterAllocationsByNodeClaim *)
+  t_tmpl : ncid -> ity -> list string                (* InflightTemplateAllocations *)
+}.
+
+Definition dinit (pre : list string) : tracker :=
+  mkT pre (fun _ => None) (fun _ _ => []) (fun _ _ => []).
+
+Definition set2 (f : ncid -> ity -> list string) (n : ncid) (it : ity) (v : list string) : ncid -> ity -> list string :=
+  fun n' it' => if String.eqb n' n && String.eqb it' it then v else f n' it'.
+
+(* one device of Commit; None = one of the "already allocated" panics *)
+Definition dcommit1 (t : tracker) (n : ncid) (it : ity) (d : dev) : option tracker :=
+  let x := d_name d in
+  if d_template d then
+    if mem x (t_tmpl t n it) then None
+    else Some (mkT (t_pre t) (t_meta t) (t_bync t) (set2 (t_tmpl t) n it (x :: t_tmpl t n it)))
+  else
+    if mem x (t_bync t n it) then None
+    else
+      let by' := set2 (t_bync t) n it (x :: t_bync t n it) in
+      match t_meta t x with
+      | Some (n', its) =>
+          if negb (String.eqb n' n) then None
+          else if mem it its then None
+          else Some (mkT (t_pre t) (upd (t_meta t) x (Some (n, it :: its))) by' (t_tmpl t))
+      | None => Some (mkT (t_pre t) (upd (t_meta t) x (Some (n, [it]))) by' (t_tmpl t))
+      end.
+
+Definition flatten (its : list (ity * list dev)) : list (ity * dev) :=
+  flat_map (fun p => map (fun d => (fst p, d)) (snd p)) its.
+
+Fixpoint dcommit_l (t : tracker) (n : ncid) (l : list (ity * dev)) : option tracker :=
+  match l with
+  | [] => Some t
+  | (it, d) :: r => match dcommit1 t n it d with None => None | Some t' => dcommit_l t' n r end
+  end.
+
+Definition dcommit (t : tracker) (n : ncid) (its : list (ity * list dev)) : option tracker :=
+  dcommit_l t n (flatten its).
+
+Definition remove_s (x : string) (l : list string) : list string := filter (fun y => negb (String.eqb y x)) l.
+
+(* the per-device part of ReleaseInstanceTypes for instance type it; None = a "missing reference" panic *)
+Fixpoint drelease_devs (meta : string -> option (ncid * list ity)) (it : ity) (ds : list string)
+  : option (string -> option (ncid * list ity)) :=
+  match ds with
+  | [] => Some meta
+  | x :: r =>
+      match meta x with
+      | None => None
+      | Some (n', its) =>
+          if negb (mem it its) then None
+          else let its' := remove_s it its in
+               drelease_devs (upd meta x (if is_nil its' then None else Some (n', its'))) it r
+      end
+  end.
+
+Definition drelease1 (t : tracker) (n : ncid) (it : ity) : option tracker :=
+  match drelease_devs (t_meta t) it (t_bync t n it) with
+  | None => None
+  | Some meta' => Some (mkT (t_pre t) meta' (set2 (t_bync t) n it []) (set2 (t_tmpl t) n it []))
+  end.
+
+Fixpoint drelease (t : tracker) (n : ncid) (its : list ity) : option tracker :=
+  match its with
+  | [] => Some t
+  | it :: r => match drelease1 t n it with None => None | Some t' => drelease t' n r end
+  end.
+
+Definition dis_allocated (t : tracker) (d : dev) (n : ncid) (it : ity) : bool :=
+  if d_template d then mem (d_name d) (t_tmpl t n it)
+  else if mem (d_name d) (t_pre t) then true
+  else match t_meta t (d_name d) with
+       | Some (n', its) => if negb (String.eqb n' n) then true else mem it its
+       | None => false
+       end.
+
+Inductive dop :=
+| DCommit (n : ncid) (its : list (ity * list dev))
+| DRelease (n : ncid) (its : list ity)
+| DIsAlloc (d : dev) (n : ncid) (it : ity).
+
+Inductive dout := DUnit | DBool (b : bool) | DPanic.
+
+Definition dstep (t : tracker) (o : dop) : option tracker * dout :=
+  match o with
+  | DCommit n its => match dcommit t n its with Some t' => (Some t', DUnit) | None => (None, DPanic) end
+  | DRelease n its => match drelease t n its with Some t' => (Some t', DUnit) | None => (None, DPanic) end
+  | DIsAlloc d n it => (Some t, DBool (dis_allocated t d n it))
+  end.
+
+Fixpoint drun (t : tracker) (ops : list dop) : option tracker :=
+  match ops with
+  | [] => Some t
+  | o :: r => match fst (dstep t o) with None => None | Some t' => drun t' r end
+  end.
+
+(* the allocator's guard: every device of the proposal is reported free for its (NodeClaim, instance type), no
+   device twice under one instance type, no instance type twice *)
+Fixpoint guarded_l (t : tracker) (n : ncid) (l : list (ity * dev)) : bool :=
+  match l with
+  | [] => true
+  | (it, d) :: r =>
+      negb (dis_allocated t d n it) &&
+      negb (existsb (fun q => String.eqb (fst q) it && String.eqb (d_name (snd q)) (d_name d) &&
+                              Bool.eqb (d_template (snd q)) (d_template d)) r) &&
+      guarded_l t n r
+  end.
+
+Definition guarded (t : tracker) (n : ncid) (its : list (ity * list dev)) : bool := guarded_l t n (flatten its).
+
+(* ---- observation used by the correspondence check: IsAllocated over a fixed universe ---- *)
+Definition u_devs : list string := ["d1"; "d2"; "d3"; "d4"].
+Definition u_ncs : list ncid := ["n1"; "n2"; "n3"].
+Definition u_its : list ity := ["a"; "b"; "c"].
+
+Definition observe (t : tracker) : list bool :=
+  flat_map (fun d => flat_map (fun tm => flat_map (fun n => map (fun it => dis_allocated t (mkDev d tm) n it) u_its) u_ncs)
+                              [false; true]) u_devs.
+
+Definition dobs := (dout * list bool * list (string * list string))%type.
+
+Definition dout_eqb (a b : dout) : bool :=
+  match a, b with
+  | DUnit, DUnit | DPanic, DPanic => true
+  | DBool x, DBool y => Bool.eqb x y
+  | _, _ => false
+  end.
+
+Definition bools_eqb (a b : list bool) : bool :=
+  (length a =? length b)%nat && forallb (fun p => Bool.eqb (fst p) (snd p)) (combine a b).
+
+(* oracle on the implementation's maps: every in-cluster device has at most one owner *)
+Definition single_owner_b (owners : list (string * list string)) : bool :=
+  forallb (fun p => (length (snd p) <=? 1)%nat) owners.
+
+Fixpoint checkT_go (t : option tracker) (ops : list dop) (obs : list dobs) : bool * bool :=
+  match ops, obs with
+  | [], [] => (true, true)
+  | o :: ops', (out, bits, owners) :: obs' =>
+      match t with
+      | None => (false, true)
+      | Some t0 =>
+          let '(t', out') := dstep t0 o in
+          let here := dout_eqb out out' &&
+                      match t' with Some t1 => bools_eqb bits (observe t1) | None => true end in
+          let '(c, r) := checkT_go t' ops' obs' in
+          (here && c, single_owner_b owners && r)
+      end
+  | _, _ => (false, true)
+  end.
+
+Definition checkT (pre : list string) (ops : list dop) (obs : list dobs) : bool * bool :=
+  checkT_go (Some (dinit pre)) ops obs.
